@@ -459,7 +459,7 @@ def stack_capacity(ctx, fn, t, F):
                         lim = cnd[2][1] + (1 if cnd[1] == "<" else 0)       # N <= len  /  N < len
                     if cnd[0] == "bin" and cnd[1] == "==" and cnd[3][0] == "lit" and cnd[2][0] == "call" and cnd[2][1] == "chess::Game::len":
                         lim = cnd[3][1]                                       # len == N (len grows by one per iteration)
-                    if lim is not None and hir.raw_line(n) > hir.raw_line(c):
+                    if lim is not None and hir.order_key(n) > hir.order_key(c):
                         best = int(lim)
             guards[p] = best if best is not None else "UNGUARDED"
     found["growth loops (guard)"] = guards
